@@ -19,6 +19,12 @@ E = {
  "C02": ("Proved: a fixed point of the documented NIPALS step is an eigenpair of E'E; a-posteriori eigen-residual bound from the documented criterion (Cauchy–Schwarz); the inner loop is a power iteration on E'E when p is cleared and on I+E'E when it is not, whose contraction is >= 1 - lambda1 whatever the spectral gap (the formal content of the defect found and fixed); the executable step is the documented step; the compiled criterion is 1e-10. Validated against an independent eigen-solver on U diag(s) V' + offsets with separated spectra, all scalings, magnitudes 1e-3..30, and under row/column permutations and rotations.",
          TB + "PARTIAL: global convergence to the k-th largest eigenvector and permutation/rotation equivariance are not theorems (validated with numpy.linalg.eigh as oracle); model correspondence is exercised in C01.",
          "Coq/MathComp spectral lemmas (fixed point, residual bound, power-iteration matrix) + independent eigen-solver oracle on the library"),
+ "C03": ("Theorems over any real closed field for PLS-NIPALS deflation sequences, for ANY number of inner iterations, any Y and any unit weight vector of the row space of the current residual: x-scores mutually orthogonal, weights mutually orthogonal, p_k'w_k = 1 and p_k'w_j = 0 (j<k) (the facts behind the score round trip), X = T P' + X_a; b t q' is exactly the orthogonal projection of Y on t; residual column c of the LV-major layout subtracts response c mod ny (model theorem in every number system). Executable model of LVCalc/PLS/predictors run on binary64 against the library (all fields, recalculated y, residuals, predicted scores, betas, iteration counts).",
+         TB + "hand transcription of pls.c (validated per run); PARTIAL: refinement of lv_calc to the sequence hypotheses, score round trip and recalculated-y layout are validated (correspondence + numpy oracle), not proved.",
+         "Coq/MathComp theorems on PLS deflation sequences + binary64 model-vs-library correspondence"),
+ "C04": ("Proved: |Y - proj_t Y|^2 = |Y|^2 - |t'Y|^2/t't, hence training RSS never increases with a latent variable; OLS limit by rank counting (a = rank X non-zero orthogonal scores in the column space of X and a residual orthogonal to them give the normal equations); x W = t (P'W) for every row x, with P'W upper unitriangular (betas predict what scores predict). Library checked against an independent least-squares solver (OLS limit), betas vs score predictor on unseen objects, RSS monotonicity, affine equivariance of a centred response.",
+         TB + "PARTIAL: affine equivariance and the glue from the executable model to these matrix statements are validated numerically (numpy lstsq oracle; model correspondence is exercised in C03).",
+         "Coq/MathComp least-squares lemmas + independent OLS oracle on the library"),
  "C06": ("For ALL worker scripts, worker counts and interleavings of their random-number calls: with thread-local generator state every finished worker has drawn exactly its sequential stream (theorem, by an invariant over schedule steps); with shared state a concrete schedule refutes it (theorem by vm_compute). Decision form over the STORAGE CLASS and the generator functions regenerated from numeric.c each run; the schedule model is replayed on the library through the RNG yield hook for every interleaving of 2-3 small workers, and the group generator / bootstrap CV are run under imposed and OS schedules.",
          TB + "T-leaf translator (RNG functions, storage class from clang's VarDecl.tls), atomicity of one RNG call (hook at call entry); word tearing, compiler reordering and C11 data-race UB not modelled (partial: hardware-level races).",
          "Coq invariant proof over all schedules on a source-regenerated RNG model + exhaustive small-schedule replay through a yield hook"),
